@@ -7,7 +7,7 @@ use crate::world::{World, WorldCfg};
 use serde_json::{json, Value};
 use std::time::Instant;
 
-pub const CLAIMED: &[&str] = &["C02", "C03"];
+pub const CHAINSIM_PROPS: &[&str] = &["C01", "C02", "C03", "C04", "C06", "C13", "C15"];
 
 fn chain_real() -> Vec<String> {
 	vec![
@@ -65,6 +65,49 @@ pub fn spec(property: &str, tier: &str) -> Option<CheckSpec> {
 			],
 			vec!["reorg", "fork_block"],
 		)),
+		"C01" => Some(s(
+			"chainsim",
+			"exploration",
+			if quick { 16 } else { 128 },
+			"case = one generated fork tree with fees, multi-kernel blocks, all kernel variants and non-zero offsets, plus one byzantine block per value-corruption class (inflated coinbase, value-creating tx, fee changed with/without re-signing, offset changed, kernel dropped/foreign, coinbase flag moved, proof/signature swapped, amount re-proved), each re-rooted and re-mined; run = seeded delivery schedule; after every head change the stored block sums are compared with sums recomputed over the full state, Chain::validate runs, and the wallet-known values of the unspent set must equal REWARD*(height+1); every corrupted block must be refused",
+			vec![
+				"AutomatedTesting chain parameters",
+				"amount-level conservation relies on the harness wallet knowing the value of every output it created",
+			],
+			vec!["reorg"],
+		)),
+		"C13" => Some(s(
+			"chainsim",
+			"exploration",
+			if quick { 16 } else { 128 },
+			"case = fork tree whose honest spends/locks are biased to sit exactly on the thresholds (coinbase spent at creation+maturity, lock_height == height, NRD duplicate at exactly relative_height, on every fork) plus byzantine blocks one step inside each threshold (maturity-1/-2, lock_height+1, NRD distance-1), evaluated on the fork being extended and re-evaluated across reorgs; honest blocks must be accepted (including through rewind_and_apply_fork), byzantine ones refused",
+			vec!["AutomatedTesting chain parameters (coinbase maturity 3, NRD from header version 4)", "pool clause (add_to_pool) is checked by the poolsim engine under C14/C13"],
+			vec!["reorg", "fork_block"],
+		)),
+		"C04" => Some(s(
+			"chainsim",
+			"exploration",
+			if quick { 16 } else { 128 },
+			"case = real-PoW header/block tree mined by simulated miners with skewed and jumping clocks across all five header versions and both retarget algorithms, plus one single-field mutation per header field (height, timestamp, version, prev_root, total_difficulty, secondary_scaling, nonce, edge_bits, proof nonce, mmr sizes), re-mined where the pre-PoW changed; each mutation is delivered through process_block, process_block_header and at the end of a sync_block_headers batch and must be refused without being stored; for every honest header the network difficulty is recomputed by an independent re-implementation of the retarget and compared with consensus::next_difficulty (>= minimum, within damp/clamp envelope)",
+			vec!["AutomatedTesting chain parameters; retarget clause covers only windows that simulated clocks produce on this chain type", "future-time-limit case uses a one hour margin from the real clock"],
+			vec!["fork_block"],
+		)),
+		"C06" => Some(s(
+			"chainsim",
+			"exploration",
+			if quick { 16 } else { 128 },
+			"case = fork tree plus byzantine inputs failing at every pipeline stage (PoW, each header rule, body validation, maturity, lock height, NRD, UTXO checks, sums, and late root/size mismatches detected only after the block was applied to the working MMRs) and valid losing-fork blocks; run = seeded schedule delivered to a node and to a twin that never sees the byzantine inputs; after each failing call head/roots/sizes/unspent view must be unchanged, and every later result and state digest must equal the twin's",
+			vec!["a header that is itself valid may be remembered (header_head of node and twin may then differ)", "Next-vs-Reorg status labels are not compared (they depend on the header chain)"],
+			vec!["fork_block", "valid_header_of_bad_block_remembered"],
+		)),
+		"C15" => Some(s(
+			"chainsim",
+			"exploration",
+			if quick { 12 } else { 96 },
+			"chain-level clause: after every delivery (forks, reorgs, restarts) the committed bitmap root must equal both an accumulator initialised from scratch over the unspent set the node reports and an independent re-implementation (chunk bytes + MMR bagging); a block whose output root commits to a bitmap with one bit flipped (re-mined) must be refused. The multi-chunk clause is checked by the txhsim engine (see coverage.txhsim)",
+			vec!["real blocks stay within one 1024-bit chunk; several chunks are covered by txhsim with synthetic outputs"],
+			vec!["reorg"],
+		)),
 		_ => None,
 	}
 }
@@ -80,6 +123,34 @@ fn world_cfg_for(property: &str, rng: &mut SimRng, quick: bool) -> WorldCfg {
 		"C02" => {
 			cfg.tx_pct = 90;
 			cfg.max_txs = 3;
+			cfg.branches = rng.range(2, 4) as usize;
+		}
+		"C01" => {
+			cfg.tx_pct = 85;
+			cfg.nrd = rng.chance(1, 2);
+		}
+		"C13" => {
+			cfg.tx_pct = 90;
+			cfg.max_txs = 2;
+			cfg.nrd = rng.chance(2, 3);
+			cfg.boundary_bias = true;
+			cfg.trunk = cfg.trunk.max(14);
+			cfg.branches = rng.range(2, 4) as usize;
+			cfg.max_branch_depth = cfg.max_branch_depth.max(3);
+		}
+		"C04" => {
+			cfg.free_difficulty = false;
+			cfg.tx_pct = 25;
+			cfg.trunk = if quick { rng.range(14, 26) } else { rng.range(14, 60) };
+		}
+		"C06" => {
+			cfg.tx_pct = 80;
+			cfg.nrd = rng.chance(1, 2);
+		}
+		"C15" => {
+			cfg.tx_pct = 90;
+			cfg.max_txs = 3;
+			cfg.trunk = cfg.trunk.max(12);
 		}
 		_ => {}
 	}
@@ -97,9 +168,65 @@ fn oracles_for(property: &str) -> Oracles {
 			o.head = true;
 			o.reject_bad = true;
 		}
+		"C01" => {
+			o.sums = true;
+			o.reject_bad = true;
+		}
+		"C13" => {
+			o.head = true;
+			o.reject_bad = true;
+		}
+		"C04" => {
+			o.head = true;
+			o.reject_bad = true;
+		}
+		"C06" => {
+			o.twin = true;
+		}
+		"C15" => {
+			o.bitmap = true;
+			o.reject_bad = true;
+		}
 		_ => {}
 	}
 	o
+}
+
+fn bad_kinds_for(property: &str, rng: &mut SimRng) -> (Vec<&'static str>, usize) {
+	use crate::badgen::*;
+	match property {
+		"C02" => (C02_KINDS.to_vec(), 2),
+		"C01" => (C01_KINDS.to_vec(), 1),
+		"C13" => (C13_KINDS.to_vec(), 3),
+		"C04" => (C04_KINDS.to_vec(), 1),
+		"C15" => (C15_KINDS.to_vec(), 3),
+		"C06" => {
+			let mut all: Vec<&'static str> = vec![];
+			all.extend_from_slice(C02_KINDS);
+			all.extend_from_slice(C01_KINDS);
+			all.extend_from_slice(C13_KINDS);
+			all.extend_from_slice(C04_KINDS);
+			all.extend_from_slice(LATE_KINDS);
+			all.extend_from_slice(C15_KINDS);
+			rng.shuffle(&mut all);
+			// late failures are the interesting ones: always present
+			let mut pick: Vec<&'static str> = LATE_KINDS.to_vec();
+			for k in all {
+				if pick.len() >= 14 {
+					break;
+				}
+				if !pick.contains(&k) {
+					pick.push(k);
+				}
+			}
+			(pick, 1)
+		}
+		_ => (vec![], 0),
+	}
+}
+
+fn uses_twin(property: &str) -> bool {
+	property == "C06"
 }
 
 pub fn build_world(property: &str, tier: &str, seed: u64) -> Result<World, String> {
@@ -108,6 +235,8 @@ pub fn build_world(property: &str, tier: &str, seed: u64) -> Result<World, Strin
 	let cfg = world_cfg_for(property, &mut r, quick);
 	let mut w = World::new(seed, cfg, &format!("{}-w", property));
 	w.generate_tree()?;
+	let (kinds, per) = bad_kinds_for(property, &mut r);
+	w.gen_bad(&kinds, per);
 	Ok(w)
 }
 
@@ -141,25 +270,54 @@ pub fn chainsim_case(property: &str, tier: &str, seed: u64, case: u64) -> CaseRe
 		}
 	};
 	let mut world = world;
+	if property == "C04" {
+		match check_retarget(&world) {
+			Ok(n) => res.probe_n("retarget_headers_checked", n),
+			Err(v) => {
+				res.violations.push(Violation {
+					key: format!("C04:{}", v.0),
+					what: v.1,
+					replay: json!({"engine": "chainsim", "property": property, "tier": tier, "case_seed": seed, "retarget_only": true}),
+				});
+			}
+		}
+		match check_ftl(&world) {
+			Ok(n) => res.probe_n("ftl_decodes_checked", n),
+			Err(v) => {
+				res.violations.push(Violation {
+					key: format!("C04:{}", v.0),
+					what: v.1,
+					replay: json!({"engine": "chainsim", "property": property, "tier": tier, "case_seed": seed, "retarget_only": true}),
+				});
+			}
+		}
+	}
 	let oracles = oracles_for(property);
 	let mut srng = SimRng::new(seed).fork("schedules");
 	let k = schedules_per_world(property, quick);
 	res.extra.insert("worlds".into(), json!(1));
+	for (k, v) in &world.stats {
+		res.probe_n(k, *v);
+	}
 	res.extra.insert("world_blocks".into(), json!(world.blocks.len()));
 	res.extra.insert("bad_blocks".into(), json!(world.bad.len()));
 	for run in 0..k {
 		let mut rr = srng.fork(&format!("run{}", run));
 		let mut scfg = SchedCfg::draw(&mut rr);
 		if !world.bad.is_empty() {
-			scfg.bad_pct = 20;
+			scfg.bad_pct = 30;
 		}
+		if uses_twin(property) {
+			scfg.n_nodes = 1;
+		}
+		let twin = uses_twin(property);
 		let (ops, reorders) = chainsim::gen_schedule(&world, &scfg, &mut rr);
 		let out = chainsim::run_ops(
 			&world,
 			property,
 			&oracles,
 			scfg.n_nodes,
-			false,
+			twin,
 			&ops,
 			true,
 			&format!("{}-c{}r{}", property, case, run),
@@ -180,7 +338,7 @@ pub fn chainsim_case(property: &str, tier: &str, seed: u64, case: u64) -> CaseRe
 			}));
 		}
 		if let Some((idx, v)) = out.violation {
-			let v = minimise(&world, property, tier, seed, &oracles, scfg.n_nodes, false, &ops, idx, v);
+			let v = minimise(&world, property, tier, seed, &oracles, scfg.n_nodes, twin, &ops, idx, v);
 			res.violations.push(v);
 			break;
 		}
@@ -191,6 +349,98 @@ pub fn chainsim_case(property: &str, tier: &str, seed: u64, case: u64) -> CaseRe
 	world.cleanup();
 	res.wall_s = t0.elapsed().as_secs_f64();
 	res
+}
+
+/// C04 in-run invariant: for every honest header the network difficulty (and secondary scaling
+/// before the last hard fork) equals an independent re-implementation of the retarget, is at least
+/// the minimum and sits inside the damp/clamp envelope.
+pub fn check_retarget(world: &World) -> Result<u64, (String, String)> {
+	use crate::refmodel::{ref_next_difficulty, DiffInfo};
+	use grin_core::consensus;
+	use grin_core::global;
+	if world.cfg.free_difficulty {
+		return Ok(0);
+	}
+	let mut n = 0;
+	for b in world.blocks.iter().skip(1) {
+		// ancestry newest -> oldest
+		let mut hist = vec![];
+		let mut cur = b.parent;
+		while let Some(id) = cur {
+			let w = &world.blocks[id];
+			let prev_td = w.parent.map(|p| world.blocks[p].total_difficulty).unwrap_or(0);
+			hist.push(DiffInfo {
+				ts: w.block.header.timestamp.timestamp() as u64,
+				diff: w.total_difficulty - prev_td,
+				scaling: w.block.header.pow.secondary_scaling,
+				secondary: w.block.header.pow.is_secondary(),
+			});
+			cur = w.parent;
+		}
+		let hv = consensus::header_version(b.height).0;
+		let (d, s, lo, hi) = ref_next_difficulty(
+			b.height,
+			hv,
+			&hist,
+			global::initial_graph_weight(),
+			global::min_wtema_graph_weight(),
+		);
+		let actual = b.total_difficulty - world.blocks[b.parent.unwrap()].total_difficulty;
+		if actual != d {
+			return Err((
+				"retarget-differs".into(),
+				format!("block #{} h{} (header v{}): accepted network difficulty {} but the reference retarget gives {}", b.id, b.height, hv, actual, d),
+			));
+		}
+		if hv < 5 && b.block.header.pow.secondary_scaling != s {
+			return Err((
+				"secondary-scaling-differs".into(),
+				format!("block #{} h{}: accepted secondary scaling {} but the reference gives {}", b.id, b.height, b.block.header.pow.secondary_scaling, s),
+			));
+		}
+		if actual < lo || actual > hi {
+			return Err((
+				"retarget-outside-envelope".into(),
+				format!("block #{} h{}: difficulty {} outside [{}, {}]", b.id, b.height, actual, lo, hi),
+			));
+		}
+		n += 1;
+	}
+	Ok(n)
+}
+
+/// C04 read-time clause: a header from the network beyond the future-time limit is refused by
+/// the untrusted decoder, one inside it decodes.
+pub fn check_ftl(world: &World) -> Result<u64, (String, String)> {
+	use grin_core::core::block::UntrustedBlockHeader;
+	use grin_core::ser::{self, ProtocolVersion};
+	let mut n = 0;
+	let tip = &world.blocks[world.winner()].block.header;
+	let ftl = grin_core::global::get_future_time_limit() as i64;
+	let now = chrono::Utc::now();
+	for (off, want_ok) in [(ftl + 3600, false), (ftl - 3600, true), (-3600 * 24, true)] {
+		let mut h = tip.clone();
+		h.timestamp = now + chrono::Duration::seconds(off);
+		// second resolution, as the wire format carries
+		let ts = h.timestamp.timestamp();
+		h.timestamp = chrono::DateTime::<chrono::Utc>::from_timestamp(ts, 0).unwrap();
+		// the decoder also verifies the cycle: re-mine after touching the pre-PoW
+		h.pow.nonce = 0;
+		grin_core::pow::pow_size(&mut h, grin_core::pow::Difficulty::from_num(1), grin_core::global::proofsize(), grin_core::global::min_edge_bits())
+			.map_err(|e| ("pow-error".to_string(), format!("{:?}", e)))?;
+		for v in [1u32, 2, 3] {
+			let bytes = ser::ser_vec(&h, ProtocolVersion(v)).map_err(|e| ("ser-error".to_string(), format!("{:?}", e)))?;
+			let r: Result<UntrustedBlockHeader, _> = ser::deserialize(&mut &bytes[..], ProtocolVersion(v), ser::DeserializationMode::default());
+			if r.is_ok() != want_ok {
+				return Err((
+					"future-time-limit".into(),
+					format!("header with timestamp now{:+}s (limit {}s) decoded ok={} at protocol version {}, expected ok={}", off, ftl, r.is_ok(), v, want_ok),
+				));
+			}
+			n += 1;
+		}
+	}
+	Ok(n)
 }
 
 /// Shrink the failing op list while the same violation key persists; attach the replay payload.
@@ -292,6 +542,11 @@ pub fn replay_chainsim(rp: &Value) -> Result<Option<Violation>, String> {
 		};
 	}
 	let mut world = world?;
+	if rp["retarget_only"].as_bool().unwrap_or(false) {
+		let r = check_retarget(&world).and_then(|_| check_ftl(&world));
+		world.cleanup();
+		return Ok(r.err().map(|(k, w)| Violation { key: format!("{}:{}", property, k), what: w, replay: rp.clone() }));
+	}
 	let wd = format!("{:016x}", world.digest());
 	if let Some(want) = rp["world_digest"].as_str() {
 		if want != wd {
@@ -321,7 +576,7 @@ pub fn replay_chainsim(rp: &Value) -> Result<Option<Violation>, String> {
 
 pub fn run_case(property: &str, tier: &str, seed: u64, case: u64) -> CaseResult {
 	match property {
-		"C02" | "C03" => chainsim_case(property, tier, seed, case),
+		p if CHAINSIM_PROPS.contains(&p) => chainsim_case(property, tier, seed, case),
 		_ => {
 			let mut r = CaseResult::new(case, seed);
 			r.harness_error = Some(format!("no engine for property {}", property));
